@@ -1022,3 +1022,94 @@ class ImplEnv(ImplViz):
 
     def cmd_mauto(self, ts):
         return self._auto(self.menv, int(ts[0]))
+
+
+# ----------------------------------------------------------------------------------- CP-SAT solver (C03)
+from job_shop_lib.constraint_programming import ORToolsSolver as _ORToolsSolver  # noqa: E402
+from job_shop_lib.exceptions import NoSolutionFoundError as _NoSolution  # noqa: E402
+
+_INT_MIN = -(2 ** 63)
+_INT_MAX = 2 ** 63 - 1
+
+
+def fmt_cp_proto(proto) -> str:
+    """Canonical text of a CpModelProto (variable names dropped)."""
+    doms = [tuple(v.domain) for v in proto.variables]
+    if doms and all(d == doms[0] and len(d) == 2 for d in doms):
+        out = [f"vars {len(doms)} dom {doms[0][0]} {doms[0][1]}"]
+    else:
+        out = ["vars " + " ".join("..".join(map(str, d)) for d in doms)]
+
+    def expr(e):
+        # a linear expression that is a plain variable, or a constant
+        if len(e.vars) == 1 and e.coeffs[0] == 1 and e.offset == 0:
+            return str(e.vars[0])
+        if len(e.vars) == 0:
+            return f"const{e.offset}"
+        return "expr(" + ",".join(f"{c}*{x}" for c, x in zip(e.coeffs, e.vars)) + f"+{e.offset})"
+
+    for c in proto.constraints:
+        kind = c.WhichOneof("constraint")
+        enf = f" if {list(c.enforcement_literal)}" if c.enforcement_literal else ""
+        if kind == "linear":
+            terms = " ".join(f"{co}*{x}" for co, x in zip(c.linear.coeffs, c.linear.vars))
+            dom = list(c.linear.domain)
+            if len(dom) != 2:
+                out.append(f"lin {terms} in {dom}{enf}")
+            else:
+                lo = "-inf" if dom[0] == _INT_MIN else str(dom[0])
+                hi = "inf" if dom[1] == _INT_MAX else str(dom[1])
+                out.append(f"lin {terms} in {lo} {hi}{enf}")
+        elif kind == "interval":
+            size = c.interval.size
+            sz = str(size.offset) if len(size.vars) == 0 else expr(size)
+            out.append(f"itv {expr(c.interval.start)} {sz} {expr(c.interval.end)}{enf}")
+        elif kind == "no_overlap":
+            out.append("noov " + " ".join(str(i) for i in c.no_overlap.intervals) + enf)
+        elif kind == "lin_max":
+            out.append(f"linmax {expr(c.lin_max.target)} : " + " ".join(expr(e) for e in c.lin_max.exprs) + enf)
+        else:
+            out.append(f"other:{kind}")
+    obj = proto.objective
+    if len(obj.vars) == 1 and obj.coeffs[0] == 1 and obj.offset == 0 and obj.scaling_factor in (0, 1):
+        out.append(f"min {obj.vars[0]}")
+    else:
+        out.append(f"objective {list(obj.vars)} {list(obj.coeffs)} {obj.offset} {obj.scaling_factor}")
+    return " | ".join(out)
+
+
+class ImplCp(ImplEnv):
+    """`cpnew` makes a solver object; `cpsolve` solves the current instance with it (the same object across
+    instances of one scenario); `cpmodel` prints the model it built."""
+
+    def cmd_cpnew(self, ts):
+        self.cp = _ORToolsSolver()
+        self.cp_values = None
+        return "ok"
+
+    def model_line(self, line):
+        if line.startswith("cpsolve") and getattr(self, "cp_values", None) is not None:
+            return "cpsched " + " ".join(map(str, self.cp_values))
+        return line
+
+    def cmd_cpsolve(self, ts):
+        if getattr(self, "cp", None) is None:
+            self.cp = _ORToolsSolver()
+        self.cp_values = None
+        self.cp_result = None
+        try:
+            sched = self.cp(self.instance) if ts == ["call"] else self.cp.solve(self.instance)
+        except _NoSolution:
+            return "no-solution"
+        except Exception as e:  # pylint: disable=broad-except
+            self.cp_error = e
+            return f"raise {type(e).__name__}"
+        self.cp_result = sched
+        self.cp_values = list(self.cp.solver.ResponseProto().solution)
+        body = " | ".join(" ".join(fmt_sop(x) for x in ms) for ms in sched.schedule)
+        return f"ok {body} ; reported {sched.metadata.get('makespan')} ; makespan {sched.makespan()}"
+
+    def cmd_cpmodel(self, ts):
+        if getattr(self, "cp", None) is None:
+            return "bad-op"
+        return fmt_cp_proto(self.cp.model.Proto())
